@@ -765,3 +765,61 @@ func (l Layout) Text() string {
 	}
 	return b.String()
 }
+
+// Render prints a mapping or sequence node in block style (used by the fuzzing generators,
+// which mutate the node trees of valid definitions).
+func (n *YNode) Render() string {
+	var b strings.Builder
+	if n.Scalar != nil {
+		b.WriteString(scalarText(n, false) + "\n")
+		return b.String()
+	}
+	if n.Flow && canFlow(n) {
+		return flowText(n) + "\n"
+	}
+	writeBlock(&b, n, 0)
+	return b.String()
+}
+
+// PackageNodes returns, per model file index, the mapping node of its definitions.
+func PackageNodes(p *Package, ch Chooser) []*YNode {
+	nf := p.NumFiles
+	if nf < 1 {
+		nf = 1
+	}
+	out := make([]*YNode, nf)
+	for i := range out {
+		out[i] = YMap()
+	}
+	for _, d := range p.Defs {
+		fi := d.File
+		if fi >= nf {
+			fi = nf - 1
+		}
+		k, v := DefNode(d, p.Namespace, ch)
+		out[fi].PutK(k, v)
+	}
+	return out
+}
+
+// Clone deep-copies a node tree.
+func (n *YNode) Clone() *YNode {
+	if n == nil {
+		return nil
+	}
+	c := *n
+	if n.Scalar != nil {
+		s := *n.Scalar
+		c.Scalar = &s
+	}
+	c.Seq = nil
+	for _, x := range n.Seq {
+		c.Seq = append(c.Seq, x.Clone())
+	}
+	c.Keys, c.Vals = nil, nil
+	for i := range n.Keys {
+		c.Keys = append(c.Keys, n.Keys[i].Clone())
+		c.Vals = append(c.Vals, n.Vals[i].Clone())
+	}
+	return &c
+}
